@@ -129,6 +129,46 @@ def diverges(e):
     return False
 
 
+def inline_predicate(crate, cond, depth=0):
+    """`if helper(a, b)` where `fn helper(x, y) -> bool { <one expression> }` is a function of the crate: returns that expression
+    with the parameters replaced by the argument expressions (so a condition that was moved into a predicate helper reads like
+    the original condition); any other expression is returned unchanged."""
+    import copy
+    if not isinstance(cond, dict) or depth > 2:
+        return cond
+    k = cond.get('k')
+    if k == 'unary' and cond.get('op') == 'Not':
+        inner = inline_predicate(crate, cond['e'], depth)
+        return cond if inner is cond['e'] else dict(cond, e=inner)
+    if k == 'binary' and cond.get('op') in ('And', 'Or'):
+        l, r = inline_predicate(crate, cond['l'], depth), inline_predicate(crate, cond['r'], depth)
+        return cond if (l is cond['l'] and r is cond['r']) else dict(cond, l=l, r=r)
+    if k != 'call':
+        return cond
+    g = getattr(crate, 'fns', {}).get(callee(cond))
+    if g is None or getattr(g, 'hir', None) is None or not str(g.sig or '').rstrip().endswith('-> bool'):
+        return cond
+    body = crate.user_body(g).hir
+    while isinstance(body, dict) and body.get('k') == 'block' and not body.get('stmts') and 'tail' in body:
+        body = body['tail']
+    if not isinstance(body, dict) or body.get('k') == 'block':
+        return cond
+    pids = {}
+    for p_, a_ in zip(g.params, cond['args']):
+        if isinstance(p_, dict) and p_.get('k') == 'bind':
+            pids[p_['id']] = a_
+
+    def sub(e):
+        if isinstance(e, dict):
+            if e.get('k') == 'path' and e.get('res') == 'local' and e.get('id') in pids:
+                return pids[e['id']]
+            return {kk: sub(vv) for kk, vv in e.items()}
+        if isinstance(e, list):
+            return [sub(x) for x in e]
+        return e
+    return inline_predicate(crate, sub(copy.deepcopy(body)), depth + 1)
+
+
 def guards(chain):
     """chain = ancestors + (node,): the conditions under which node executes, outermost first.
     Items: ('if', cond_expr, True|False)  |  ('match', scrut_expr, arm)  |  ('loop', node)  |  ('closure', node)
